@@ -1,7 +1,11 @@
 '''C17: browser selections.  Implementation (valjean.eponine.browser) vs the Coq
 model C17/Model.v, plus the property oracle (a direct scan of the item list
 with Python's own == as ground truth).'''
+import enum
 import json
+import numbers
+from decimal import Decimal
+from fractions import Fraction
 
 from vp import common
 from vp.common import cz, cn, clist
@@ -15,6 +19,23 @@ EXC = {'TypeError': 0, 'NoItemBrowserError': 1, 'TooManyItemsBrowserError': 2, '
 
 # ---------------------------------------------------------------------------
 # JSON value specs -> Python objects
+
+
+class Colour(enum.Enum):
+    RED = 1
+    GREEN = 2
+
+
+class Level(enum.IntEnum):
+    ONE = 1
+    TWO = 2
+
+
+_NANS = {}
+
+
+def reset_cache():
+    _NANS.clear()
 
 
 def build(spec):
@@ -35,7 +56,26 @@ def build(spec):
         return [build(s) for s in spec[1]]
     if tag == 'd':
         return {'v': spec[1]}
+    if tag == 'fs':
+        return frozenset(build(s) for s in spec[1])
+    if tag == 'by':
+        return str(spec[1]).encode()
+    if tag == 'nan':           # one object per number and case: `is` matters for NaN
+        return _NANS.setdefault(spec[1], float('nan'))
+    if tag == 'dec':
+        return Decimal(spec[1])
+    if tag == 'fr':
+        return Fraction(spec[1][0], spec[1][1])
+    if tag == 'en':
+        return Colour[spec[1]]
+    if tag == 'ien':
+        return Level[spec[1]]
     raise ValueError(spec)
+
+
+def same(a, b):
+    '''equality as Python containers see it (identity first: NaN)'''
+    return a is b or a == b
 
 
 def is_hashable(obj):
@@ -71,10 +111,15 @@ class Encoder:
                     return f'(U {cz(n)})'
             self.uvals.append(v)
             return f'(U {cz(len(self.uvals) - 1)})'
-        if isinstance(v, (bool, int, float)) and v == v and abs(v) < 10 ** 6 and v == int(v):
-            return f'(H {cz(int(v))})'
+        if isinstance(v, numbers.Number) and not isinstance(v, complex):
+            try:
+                whole = int(v)
+                if v == whole and abs(whole) < 10 ** 6:
+                    return f'(H {cz(whole)})'
+            except (ValueError, OverflowError, ArithmeticError):
+                pass
         for n, other in enumerate(self.hvals):
-            if other == v:
+            if other is v or other == v:
                 return f'(H {cz(10 ** 6 + n)})'
         self.hvals.append(v)
         return f'(H {cz(10 ** 6 + len(self.hvals) - 1)})'
@@ -100,14 +145,36 @@ POOL = [['i', 1], ['f', 1.0], ['b', True], ['i', 0], ['f', 0.0], ['b', False], [
         ['s', 'x'], ['s', 'y'], ['s', '1'], ['t', [['i', 1], ['i', 2]]],
         ['t', [['f', 1.0], ['f', 2.0]]], ['t', [['b', True], ['i', 2]]], ['n'],
         ['t', [['s', 'x']]], ['i', -1], ['f', 1.5], ['t', []], ['s', '']]
+# unusual hashables: containers, bytes, NaN (two distinct objects), numbers equal to ints, enum members,
+# a very long string, the empty string / tuple / frozenset
+UNUSUAL = [['fs', [['i', 1], ['i', 2]]], ['fs', [['f', 2.0], ['b', True]]], ['fs', []], ['fs', [['s', 'x']]],
+           ['t', [['t', [['i', 1]]], ['s', 'x']]], ['t', [['t', [['f', 1.0]]], ['s', 'x']]],
+           ['t', [['fs', [['i', 1]]], ['n']]], ['by', 'x'], ['by', ''], ['n'], ['nan', 0], ['nan', 1],
+           ['en', 'RED'], ['en', 'GREEN'], ['ien', 'ONE'], ['ien', 'TWO'], ['s', 'x' * 300], ['s', ''], ['t', []],
+           ['i', 1], ['i', 2], ['s', 'x']]
+NUMERIC_DEC = [['dec', '1'], ['dec', '2'], ['dec', '2.50'], ['dec', '0']]
+NUMERIC_FR = [['fr', [1, 1]], ['fr', [4, 2]], ['fr', [7, 2]], ['fr', [0, 3]]]
+# values whose str() / repr() coincide or nearly coincide
+LOOKALIKE = [[['i', 3], ['s', '3']], [['n'], ['s', 'None']], [['t', [['i', 1], ['i', 2]]], ['s', '(1, 2)']],
+             [['f', 1.0], ['s', '1.0']], [['b', True], ['s', 'True']], [['i', 1], ['s', '1']],
+             [['by', 'x'], ['s', "b'x'"]], [['fs', []], ['s', 'frozenset()']], [['s', ''], ['t', []]],
+             [['en', 'RED'], ['s', 'Colour.RED']], [['f', 2.5], ['dec', '2.5']]]
 DKS = ['results'] * 11 + ['data'] * 5 + ['a'] * 2 + ['res'] * 2
 
 
-def gen_items(rng, dk, nmax=12):
+def gen_items(rng, dk, nmax=12, mode='plain'):
     n = rng.choice([0, 1, 1, 2, 2, 3, 3, 4, 5, 6, 8, nmax])
     nkeys = rng.randint(1, 5)
     keys = rng.sample(ALPHA, nkeys)
-    pool = rng.sample(POOL, rng.randint(2, 6))
+    if mode == 'unusual':
+        pool = rng.sample(UNUSUAL + rng.choice([NUMERIC_DEC, NUMERIC_FR]), rng.randint(3, 8))
+    elif mode == 'history':
+        pairs = rng.sample(LOOKALIKE, rng.randint(1, 3))
+        pool = [v for pair in pairs for v in pair]
+        keys = keys[:2]
+        n = max(n, 2)
+    else:
+        pool = rng.sample(POOL, rng.randint(2, 6))
     items = []
     for i in range(n):
         it = []
@@ -213,8 +280,11 @@ def gen_case(rng):
     '''The generator follows the chain with its own direct scan (no valjean
     code) so that later operations of a chain are aimed at items that are
     still there.'''
+    reset_cache()
     dk = rng.choice(DKS)
-    items, keys, pool = gen_items(rng, dk)
+    r0 = rng.random()
+    mode = 'plain' if r0 < 0.6 else 'unusual' if r0 < 0.8 else 'history'
+    items, keys, pool = gen_items(rng, dk, mode=mode)
     case = {'items': items, 'dk': dk, 'globals': gen_globals(rng), 'ops': []}
 
     def stamped(specs):
@@ -226,11 +296,25 @@ def gen_case(rng):
         return out
 
     cur = stamped(items)
-    for _ in range(rng.choice([1, 2, 2, 3, 3, 4, 5])):
+    for _ in range(rng.choice([1, 2, 2, 3, 3, 4, 5]) if mode != 'history' else rng.randint(3, 8)):
         r = rng.random()
         if not cur and r < 0.6:
             r = 0.7         # an empty browser: merge something into it
         specs = [it for it, _ in cur]
+        if mode == 'history' and r < 0.8:
+            # HISTORIES: several queries on the SAME browser object (stay = True: the sub-browser is checked
+            # and dropped), one key, values whose str()/repr() coincide with those of the previous queries
+            key = rng.choice(keys)
+            q = [[key, rng.choice(pool) if rng.random() < 0.9 else rng.choice(POOL)]]
+            if rng.random() < 0.25 and len(keys) > 1:
+                q.append([[k for k in keys if k != key][0], rng.choice(pool)])
+            stay = rng.random() < 0.85
+            kind = 'filter' if rng.random() < 0.6 else 'select'
+            case['ops'].append([kind, [], [], q, stay])
+            if kind == 'filter' and not stay:
+                sel = scan([d for _, d in cur], dk, [], [], [(k, build(v)) for k, v in q])
+                cur = stamped([it for it, d in cur if any(d is x for x in sel)])
+            continue
         if r < 0.65:
             target = rng.choice(specs) if specs and rng.random() < 0.8 else None
             tkeys = [k[1] for k, _ in (target or [])]
@@ -248,7 +332,10 @@ def gen_case(rng):
                 case['ops'].append(['select', incl, excl, q])
         elif r < 0.8:
             dk2 = dk if rng.random() < 0.85 else rng.choice(DKS)
-            items2, keys2, pool2 = gen_items(rng, dk2, nmax=5)
+            items2, keys2, pool2 = gen_items(rng, dk2, nmax=5, mode=mode if mode != 'history' else 'plain')
+            if mode == 'history':       # the merged items carry the same look-alike values under the same keys
+                items2 = [[[k, rng.choice(pool)] if k[1] in keys else [k, v] for k, v in it] for it in items2]
+                keys2 = []
             keys = sorted(set(keys) | set(keys2))
             pool = pool + [p for p in pool2 if p not in pool]
             case['ops'].append(['merge', {'items': items2, 'dk': dk2, 'globals': gen_globals(rng)}])
@@ -323,7 +410,7 @@ def scan(content, dk, incl, excl, q):
     '''the direct scan of the item list the property talks about'''
     out = []
     for it in content:
-        ok = all(k != dk and k in it and it[k] == v for k, v in q)
+        ok = all(k != dk and k in it and same(it[k], v) for k, v in q)
         ok = ok and all(k in it for k in incl) and not any(k in it for k in excl)
         if ok:
             out.append(it)
@@ -351,7 +438,7 @@ def same_items(ctx, what, got, want, dk, case, key):
 
 
 def set_equal(got, want):
-    return all(any(g == w for w in want) for g in got) and all(any(g == w for g in got) for w in want)
+    return all(any(same(g, w) for w in want) for g in got) and all(any(same(g, w) for g in got) for w in want)
 
 
 def obs_browser(enc, br):
@@ -363,6 +450,7 @@ def run_impl(ctx, case, steps):
     from valjean.eponine import browser as bmod
     Browser = bmod.Browser
     enc = Encoder()
+    reset_cache()
 
     def mk(desc):
         items = [dict((build(k), build(v)) for k, v in it) for it in desc['items']]
@@ -519,8 +607,10 @@ def run_impl(ctx, case, steps):
             ctx.oracle_failure(f'{kind} modifies the input dictionaries :: {case}', case,
                                key='inputs-modified')
         steps.append((case, zop, state, res))
-        if new_br is not None:
+        if new_br is not None and not (len(op) > 4 and op[4]):
             br = new_br
+        if len(op) > 4 and op[4]:
+            ctx.count('query_on_same_browser')
     return nontrivial
 
 
